@@ -91,7 +91,10 @@ COMPONENT = """<component>
 </component>
 """
 PACKAGES = {"zcsim_p0": {"is_package": True},
-            "zcsim_notpkg": {"is_package": False}}
+            "zcsim_notpkg": {"is_package": False},
+            # a package whose module object has no __loader__ (component
+            # found on the file system: zcsim/nlpkg/zcsim_pnl)
+            "zcsim_pnl": {"is_package": True, "noloader": True}}
 
 
 # ---------------------------------------------------------------------------
